@@ -185,7 +185,10 @@ func (c *Ctx) Violate(kind, op string, input []byte, detail map[string]any) {
 		return
 	}
 	v := Violation{Property: c.Prop, Kind: kind, Op: op, Input: in, Detail: detail}
-	dir := filepath.Join(c.VerifDir, "replays")
+	dir := os.Getenv("VERIF_REPLAY_DIR") // lets concurrent runs (seed matrix) keep their replay files apart
+	if dir == "" {
+		dir = filepath.Join(c.VerifDir, "replays")
+	}
 	os.MkdirAll(dir, 0o755)
 	path := filepath.Join(dir, fmt.Sprintf("%s-%d-%d.json", c.Prop, c.Seed, len(c.violations)))
 	v.Replay = path
